@@ -36,6 +36,8 @@ func ifaceNilEdges(fn *ssa.Function, field string, isNil bool) []eng.Edge {
 }
 
 func runC17(c *eng.Ctx) {
+	c.Rule("R17.6", "K4")
+	ruleEveryPartitionGetsItsOwnHandler(c)
 	p := c.P
 
 	c.Rule("R17.6", "K4")
